@@ -94,8 +94,18 @@ def run_jobs(payload, njobs, hard_s):
                 try:
                     out = rc.recv()
                 except (EOFError, OSError):
+                    out = None
+                if out is None and retried.get(tuple(ch), 0) < 2:
+                    # the worker died (z3 occasionally segfaults): run the chunk again
+                    retried[tuple(ch)] = retried.get(tuple(ch), 0) + 1
+                    pr.join()
+                    rc.close()
+                    del running[rc]
+                    pending.append(ch)
+                    continue
+                if out is None:
                     out = [dict(kind=payload[i][0], name=payload[i][1], status="crash",
-                                message="worker died without a result", obligations=[]) for i in ch]
+                                message="worker died without a result (3 attempts)", obligations=[]) for i in ch]
                 for i, r in zip(ch, out):
                     results[i] = r
                 pr.join()
